@@ -332,6 +332,22 @@ Section C01.
   (* a real orthogonal S (eigh of a real symmetric Hamiltonian) is a special case *)
   Lemma orthogonal_is_dagger (S1 S : @mat R) : real_mat S -> transpose_of S1 S -> dagger_of S1 S.
   Proof. intros HR HT i j Hi Hj. now rewrite (HT i j Hi Hj), (HR j i Hj Hi). Qed.
+  (* the operators K_m = S^T P_m S the code builds from site projectors stay real and symmetric: the hypotheses of
+     the Hermiticity theorems are consequences of an orthogonal real S *)
+  Lemma sim_sym (S1 S A : @mat R) : transpose_of S1 S -> sym_mat A -> sym_mat (sim n S1 S A).
+  Proof.
+    intros HT HA i j Hi Hj. unfold sim, mmul.
+    rewrite (sum_ext n _ (fun k => sum n (fun l => S k i * A k l * S l j))).
+    2:{ intros k Hk. rewrite <- sum_mul_l. apply sum_ext. intros l Hl. rewrite (HT i k Hi Hk). ring. }
+    rewrite (sum_ext n (fun k => S1 j k * sum n (fun l => A k l * S l i)) (fun k => sum n (fun l => S k j * A k l * S l i))).
+    2:{ intros k Hk. rewrite <- sum_mul_l. apply sum_ext. intros l Hl. rewrite (HT j k Hj Hk). ring. }
+    rewrite sum_swap. apply sum_ext. intros l Hl. apply sum_ext. intros k Hk. rewrite (HA k l Hk Hl). ring.
+  Qed.
+  Lemma sim_real (S1 S A : @mat R) : real_mat S1 -> real_mat S -> real_mat A -> real_mat (sim n S1 S A).
+  Proof.
+    intros H1 H2 HA i j Hi Hj. unfold sim, mmul. rewrite sum_cj. apply sum_ext. intros k Hk.
+    rewrite cj_mul, (H1 i k Hi Hk), sum_cj. f_equal. apply sum_ext. intros l Hl. now rewrite cj_mul, (HA k l Hk Hl), (H2 l j Hl Hj).
+  Qed.
 End C01.
 
 (* ---------- the pinned pure dephasing breaks Hermiticity: a two-level witness over the Gaussian integers ---------- *)
